@@ -328,6 +328,12 @@ class Body:
         if p is None:
             return ("unknown",)
         if not place_is_local(p):
+            # field 0 of an overflow-checked arithmetic pair is the arithmetic result
+            if len(p) == 2 and isinstance(p[1], dict) and p[1].get("f") == 0 and "n" not in p[1]:
+                ds = self.defs().get(p[0], [])
+                if len(ds) == 1 and ds[0][2] == "assign" and ds[0][3]["rv"] == "bin" and ds[0][3]["op"].endswith("WithOverflow"):
+                    r = ds[0][3]
+                    return ("bin", r["op"][: -len("WithOverflow")], self.expr(r["a"], depth - 1), self.expr(r["b"], depth - 1))
             # projection of a temp that points somewhere: resolve deref of single-def ref temps
             if len(p) >= 2 and p[1] == "*":
                 base = self.expr_place([p[0]], depth - 1, _seen)
